@@ -71,3 +71,14 @@ declare_fields('Instruction', _config='cfg', _variants='list[InstructionVariant]
 declare_fields('InstructionVariant', _variant_config='cfg', _operand_parser='OperandParser?')
 declare_fields('OperandSet', _name='str', _config='cfg', _ordered_operand_list='list[Operand]')
 declare_fields('MatchedOperandSet', _operands='list[ParsedOperand]', _reverse_arg_order='bool', _reverse_op_bytecode_order='bool')
+
+# ---- preprocessor -----------------------------------------------------------------------------------------
+declare_fields('ConditionStack', _stack='list[PreprocessorCondition]', _selected='list[bool]', _taken='list[bool]',
+               _mute_counter='int')
+declare_fields('PreprocessorCondition', _line_str='str', _line='LineIdentifier', _parent='PreprocessorCondition?')
+declare_fields('IfPreprocessorCondition', _lhs_expression='str', _operator='str', _rhs_expression='str')
+declare_fields('IfdefPreprocessorCondition', _is_ifndef='bool', _symbol='str')
+declare_fields('Preprocessor', _symbols='dict[str,PreprocessorSymbol]')
+declare_fields('PreprocessorSymbol', _name='str', _value='str', _line_id='LineIdentifier?')
+declare_fields('ConditionLine', _condition='PreprocessorCondition')
+declare_fields('DefineSymbolLine', _symbol='PreprocessorSymbol')
